@@ -225,6 +225,16 @@ func c10Serialisable(c *Ctx, keys []pairKey, big string) {
 	for ei, k := range keys {
 		addExp(ei, k, []proto.Step{c10Msg(k.a, 0, big), c10Msg(k.b, 1, big), c10Msg(k.a, 2, big)}, files, big)
 	}
+	// requests that have nothing to answer (the edit in flight emptied the document; the document was closed) must still
+	// leave the server able to answer the next one
+	{
+		empty := proto.Step{M: "textDocument/didChange", N: true, NoWait: true, P: json.RawMessage(`{"textDocument":{"uri":"file://$ROOT/big.lua","version":2},"contentChanges":[{"text":""}]}`)}
+		for _, kind := range []string{"textDocument/hover", "textDocument/definition", "textDocument/documentHighlight", "textDocument/references", "textDocument/completion", "textDocument/signatureHelp"} {
+			k := pairKey{a: kind + " (on a document the edit in flight empties)", b: "textDocument/didChange"}
+			keys = append(keys, k)
+			addExp(len(keys)-1, k, []proto.Step{c10Msg(kind, 0, big), empty, c10Msg(kind, 2, big)}, files, big)
+		}
+	}
 	// an edit that changes what a name denotes (an inner local is renamed to the name of an outer one), sent while a
 	// slow request holds the server and a position request on that name waits behind it: the waiting request must be
 	// answered for the text before the edit or for the text after it, never for a mixture
